@@ -88,34 +88,16 @@ namespace smt
         switch (value(left))
         {
         case True:
-            switch (value(right))
-            {
-            case True:
-                return TRUE_lit; // the variables assume the same value..
-            case False:
-                return FALSE_lit; // the variables cannot assume the same value..
-            case Undefined:
-                return sign(left) == sign(right) ? right : !right;
-            }
-            [[fallthrough]];
+            return right; // the equality holds iff 'right' is true..
         case False:
-            switch (value(right))
-            {
-            case True:
-                return FALSE_lit; // the variables cannot assume the same value..
-            case False:
-                return TRUE_lit; // the variables assume the same value..
-            case Undefined:
-                return sign(left) == sign(right) ? !right : right;
-            }
-            [[fallthrough]];
+            return !right; // the equality holds iff 'right' is false..
         case Undefined:
             switch (value(right))
             {
             case True:
-                return sign(left) == sign(right) ? left : !left;
+                return left; // the equality holds iff 'left' is true..
             case False:
-                return sign(left) == sign(right) ? !left : left;
+                return !left; // the equality holds iff 'left' is false..
             case Undefined:
                 break;
             }
